@@ -1,5 +1,5 @@
 claim("C07", "Exactness of Signature::verify against the Pointcheval-Sanders relation and completeness of every producer chain as normal-form identities for symbolic N (value reconstruction + polynomial/bilinear normal forms).",
-      "Decides: acceptance Boolean == R_ps; producer value terms == R_sign/R_rand/R_blind/R_bsign/R_unblind; chains verify identically (side condition: randomiser != 0). Not decided: EUF-CMA (no forgery after changing a coordinate) - the check shows every coordinate enters the verification polynomial.",
+      "Decides: acceptance Boolean == R_ps; producer value terms == R_sign/R_rand/R_blind/R_bsign/R_unblind (incl. re-randomising a blinded signature and the public wrappers); every public producer is covered; chains verify identically (side condition: randomiser != 0). Not decided: EUF-CMA (no forgery after changing a coordinate) - the check shows every coordinate enters the verification polynomial.",
       "MIR value reconstruction (gated SSA terms, inlining) + polynomial/bilinear normal-form identity against an oracle relation", "5/C07")
 claim("C08", "who-may-construct over the whole type-checked program for the blind-signable wrapper, exactness of its single constructing verifier, visibility facts, and the blind/sign/unblind chain identity.",
       "Decides: VerifiedBlindedMessage is built only in the accepting arm of the request-proof verifier, under exactly R_cp(g1,Y;proof), wrapping the proof's own commitment; every signer signs its own verified parameter; chain identity. Not decided: Schnorr knowledge soundness.",
@@ -28,7 +28,7 @@ claim("C05", "complete_payment accept condition == R_open on the stored commitme
 claim("C13", "Range prover domain/no-panic by intervals for all i64, verifier exactness against R_range with loop recurrences, evaluated constants U^L = 2^63, parameter generation/validation exactness.",
       "Decides: verifier accepts iff all L digit proofs satisfy R_sp under the parameters' key and sum U^j rs_j == expected; prover refuses iff negative and cannot panic; parameters sign exactly 0..U-1. Not decided: digit-signature unforgeability.",
       "MIR value reconstruction with loop summaries + interval abstract interpretation", "5/C13")
-claim("C17", "Totality of balance/amount arithmetic by interval + octagon abstract interpretation for all 64-bit inputs, exact Ok/Err regions decided in the octagon domain, exact linear value forms, invariant establishment at every construction site (decoders included).",
+claim("C17", "Totality of balance/amount arithmetic by interval + octagon abstract interpretation for all 64-bit inputs, exact Ok/Err regions decided in the octagon domain, exact linear value forms, invariant establishment at every construction site (decoders included), and a sweep of every public / trait method of the four arithmetic types for undischarged panic obligations.",
       "Decides: no reachable overflow/abs/cast/unwrap panic; Ok exactly on [0,2^63-1] with the exact result; encoding is the ring map. Uses the Balance invariant only because every construction site is shown to establish it.",
       "interval + octagon abstract interpretation over reconstructed MIR terms; who-may-construct invariant establishment", "5/C17")
 claim("C04", "Completeness identities for establish and pay (verifier acceptance of the honest provers' output terms normalises to TRUE under a library-generated merchant configuration), exact ledger step, clean refusal, and discharge of every input-dependent panic obligation on the honest prover path.",
@@ -40,7 +40,7 @@ claim("C06", "Every component of both verification tuples reaches the Fiat-Shami
 claim("C10", "R_resp wiring of the provers, completeness of all four proof kinds as normal-form identities (symbolic messages, lengths, value), identical builder/proof transcripts, documented patterns as polynomial identities of the response term.",
       "Decides: verify(honest proof) == TRUE (side condition: randomisers != 0), same challenge by transcript identity. Uses the recorded digit-decomposition lemma.",
       "MIR value reconstruction + polynomial/bilinear normal-form identities", "5/C10")
-claim("C14", "Every atom of every customer message (wire-form enumeration) is a documented disclosure or masked by randomness drawn in the same call, independent of the masked secret; signatures are re-randomised before being shown; secrets never appear verbatim.",
+claim("C14", "Every atom of every customer message (wire-form enumeration) is a documented disclosure or masked by randomness drawn in the same call, independent of the masked secret; no published scalar is the mask of a hidden slot; signatures are re-randomised before being shown; secrets never appear verbatim.",
       "Decides necessary structural conditions only. NOT decided: inequality of run-time values across sessions, hiding, zero knowledge, unlinkability.",
       "field-sensitive provenance over reconstructed terms (freshness / masking positions), who-may-construct", "5/C14")
 claim("C15", "Wire models (writer sequence, reader sequence, codec per field, try_from proxies) extracted from derive-generated and hand-written serde MIR; writer == reader; checked/unchecked twins agree in names, order and types and the validating conversion carries field i to field i; every invariant type decodes only through a validator whose Ok condition equals the invariant table; only checked leaf decoders on decode paths.",
